@@ -479,7 +479,7 @@ func slotPrecedence(e Expression) int     { return 0 }
 
 
 //@ func (p *Program) WriteTo(cw)
-//@   props C01 C03 C06 C08 C15 C14 C11
+//@   props C01 C03 C06 C08 C15 C14 C11 C07
 //@   use cwFrame writeTo
 //@   assumes [wf] forall(0, len(p.Statements), func(k int) bool { return !isNil(p.Statements[k]) })
 //@   loop 1 invariant [frame] cwInv(cw) && J(cw) && NoFusion(cw) && cw.IndentLevel == atEntry(cw.IndentLevel)
@@ -493,25 +493,25 @@ func slotPrecedence(e Expression) int     { return 0 }
 //@   ensures [eof.comments@C15] isTrimOf(callArg[[]string]("(*CodeWriter).WriteLeadingComments", 0, 1), p.EOF.LeadingComments)
 
 //@ func (ls *LetStatement) WriteTo(cw)
-//@   props C01 C03 C06 C08 C15 C14 C11
+//@   props C01 C03 C06 C08 C15 C14 C11 C07
 //@   use cwFrame writeTo
 //@   assumes [wf] ls.Name != nil && (ls.Value == nil || !isNil(ls.Value))
 //@   ensures [syntax] traceSeq(evLC(ls.Token.LeadingComments), evMap(ls.Token.Start), evStr("let "), evChild(ls.Name), evOpt(ls.Value != nil, evRune('=')), evOpt(ls.Value != nil, evNode(ls.Value)), evSemi())
 
 //@ func (rs *ReturnStatement) WriteTo(cw)
-//@   props C01 C03 C06 C08 C15 C14 C11
+//@   props C01 C03 C06 C08 C15 C14 C11 C07
 //@   use cwFrame writeTo
 //@   assumes [wf] rs.ReturnValue == nil || !isNil(rs.ReturnValue)
 //@   ensures [syntax] traceSeq(evLC(rs.Token.LeadingComments), evMap(rs.Token.Start), evStr("return"), evOpt(rs.ReturnValue != nil, evRune(' ')), evOpt(rs.ReturnValue != nil, evNode(rs.ReturnValue)), evSemi())
 
 //@ func (es *ExpressionStatement) WriteTo(cw)
-//@   props C01 C03 C06 C08 C15 C14 C11
+//@   props C01 C03 C06 C08 C15 C14 C11 C07
 //@   use cwFrame writeTo
 //@   assumes [wf] es.Expression == nil || !isNil(es.Expression)
 //@   ensures [syntax] traceSeq(evOpt(es.Expression != nil, evNode(es.Expression)), evOpt(es.Expression != nil, evSemi()))
 
 //@ func (fd *FunctionDeclaration) WriteTo(cw)
-//@   props C01 C03 C06 C08 C15 C14 C11
+//@   props C01 C03 C06 C08 C15 C14 C11 C07
 //@   use cwFrame writeTo
 //@   assumes [wf] fd.Name != nil && fd.Body != nil && forall(0, len(fd.Parameters), func(k int) bool { return fd.Parameters[k] != nil })
 //@   loop 1 invariant [frame] cwInv(cw) && J(cw) && NoFusion(cw) && cw.IndentLevel == atEntry(cw.IndentLevel)
@@ -520,7 +520,7 @@ func slotPrecedence(e Expression) int     { return 0 }
 //@   ensures [syntax] traceSeq(evRune(')'), evChild(fd.Body))
 
 //@ func (bs *BlockStatement) WriteTo(cw)
-//@   props C01 C03 C06 C08 C15 C14 C11
+//@   props C01 C03 C06 C08 C15 C14 C11 C07
 //@   use cwFrame writeTo
 //@   assumes [wf] forall(0, len(bs.Statements), func(k int) bool { return !isNil(bs.Statements[k]) })
 //@   loop 1 invariant [frame] cwInv(cw) && J(cw) && NoFusion(cw) && cw.IndentLevel == ite(cw.PrettyPrint, atEntry(cw.IndentLevel), old(cw.IndentLevel)) && implies(cw.PrettyPrint, cw.IndentLevel == old(cw.IndentLevel)+1)
@@ -529,25 +529,25 @@ func slotPrecedence(e Expression) int     { return 0 }
 //@   ensures [syntax] traceSeq(evLC(bs.RBrace.LeadingComments), evRune('}'))
 
 //@ func (ifs *IfStatement) WriteTo(cw)
-//@   props C01 C03 C06 C08 C15 C14 C11
+//@   props C01 C03 C06 C08 C15 C14 C11 C07
 //@   use cwFrame writeTo
 //@   assumes [wf] !isNil(ifs.Condition) && !isNil(ifs.ThenBranch) && (ifs.ElseBranch == nil || !isNil(ifs.ElseBranch))
 //@   ensures [syntax] traceSeq(evLC(ifs.Token.LeadingComments), evMap(ifs.Token.Start), evStr("if"), evRune('('), evNode(ifs.Condition), evRune(')'), evNode(ifs.ThenBranch), evOpt(ifs.ElseBranch != nil, evCall("(*CodeWriter).RequireSemi")), evOpt(ifs.ElseBranch != nil, evStr(" else ")), evOpt(ifs.ElseBranch != nil, evNode(ifs.ElseBranch)))
 
 //@ func (ws *WhileStatement) WriteTo(cw)
-//@   props C01 C03 C06 C08 C15 C14 C11
+//@   props C01 C03 C06 C08 C15 C14 C11 C07
 //@   use cwFrame writeTo
 //@   assumes [wf] !isNil(ws.Condition) && !isNil(ws.Body)
 //@   ensures [syntax] traceSeq(evLC(ws.Token.LeadingComments), evMap(ws.Token.Start), evStr("while"), evRune('('), evNode(ws.Condition), evRune(')'), evNode(ws.Body))
 
 //@ func (fs *ForStatement) WriteTo(cw)
-//@   props C01 C03 C06 C08 C15 C14 C11
+//@   props C01 C03 C06 C08 C15 C14 C11 C07
 //@   use cwFrame writeTo
 //@   assumes [wf] (fs.Init == nil || !isNil(fs.Init)) && (fs.Condition == nil || !isNil(fs.Condition)) && (fs.Update == nil || !isNil(fs.Update)) && !isNil(fs.Body)
 //@   ensures [syntax] traceSeq(evLC(fs.Token.LeadingComments), evMap(fs.Token.Start), evStr("for"), evRune('('), evOpt(fs.Init != nil, evNode(fs.Init)), evRune(';'), evOpt(fs.Condition != nil, evNode(fs.Condition)), evRune(';'), evOpt(fs.Update != nil, evNode(fs.Update)), evRune(')'), evNode(fs.Body))
 
 //@ func (i *Identifier) WriteTo(cw)
-//@   props C01 C03 C06 C08 C15 C14 C11
+//@   props C01 C03 C06 C08 C15 C14 C11 C07
 //@   use cwFrame writeTo
 //@   ensures [syntax] traceSeq(evLC(i.Token.LeadingComments), evNamedMap(i.Token.Start.Line, i.Token.Start.Column, i.Value), evStr(i.Value))
 
@@ -567,7 +567,7 @@ func slotPrecedence(e Expression) int     { return 0 }
 //@   ensures [syntax] traceSeq(evLC(bl.Token.LeadingComments), evMap(bl.Token.Start), evStr(bl.Token.Literal))
 
 //@ func (nl *NullLiteral) WriteTo(cw)
-//@   props C01 C03 C06 C08 C15 C14 C11
+//@   props C01 C03 C06 C08 C15 C14 C11 C07
 //@   use cwFrame writeTo
 //@   ensures [syntax] traceSeq(evLC(nl.Token.LeadingComments), evMap(nl.Token.Start), evStr("null"))
 
@@ -583,40 +583,40 @@ func slotPrecedence(e Expression) int     { return 0 }
 //@   ensures [backticks.escaped@C07] ncalls("strings.ReplaceAll") == 1 && callArg[string]("strings.ReplaceAll", 0, 0) == sl.Value && callArg[string]("strings.ReplaceAll", 0, 1) == "`" && callArg[string]("strings.ReplaceAll", 0, 2) == "\\`"
 
 //@ func (le *LetExpression) WriteTo(cw)
-//@   props C01 C03 C06 C08 C15 C14 C11
+//@   props C01 C03 C06 C08 C15 C14 C11 C07
 //@   use cwFrame writeTo
 //@   assumes [wf] le.Name != nil && (le.Value == nil || !isNil(le.Value))
 //@   ensures [syntax] traceSeq(evLC(le.Token.LeadingComments), evMap(le.Token.Start), evStr("let "), evChild(le.Name), evOpt(le.Value != nil, evRune('=')), evOpt(le.Value != nil, evNode(le.Value)))
 
 //@ func (be *BinaryExpression) WriteTo(cw)
-//@   props C01 C03 C06 C08 C15 C14 C11
+//@   props C01 C03 C06 C08 C15 C14 C11 C07
 //@   use cwFrame writeTo
 //@   assumes [wf] !isNil(be.Left) && !isNil(be.Right)
 //@   ensures [parens.subject@C03] ncalls("slotPrecedence") == 2 && callArg[Expression]("slotPrecedence", 0, 0) == be.Left && callArg[Expression]("slotPrecedence", 1, 0) == be.Right
 //@   ensures [syntax] traceSeq(evOpt(parensLeft(astLevel(be.Token.Type), callResult[int]("slotPrecedence", 0)), evRune('(')), evNode(be.Left), evOpt(parensLeft(astLevel(be.Token.Type), callResult[int]("slotPrecedence", 0)), evRune(')')), evLC(be.Token.LeadingComments), evMap(be.Token.Start), evStr(be.Operator), evOpt(parensRight(astLevel(be.Token.Type), callResult[int]("slotPrecedence", 1)), evRune('(')), evNode(be.Right), evOpt(parensRight(astLevel(be.Token.Type), callResult[int]("slotPrecedence", 1)), evRune(')')))
 
 //@ func (ue *UnaryExpression) WriteTo(cw)
-//@   props C01 C03 C06 C08 C15 C14 C11
+//@   props C01 C03 C06 C08 C15 C14 C11 C07
 //@   use cwFrame writeTo
 //@   assumes [wf] !isNil(ue.Right)
 //@   ensures [parens.subject@C03] ncalls("slotPrecedence") == 1 && callArg[Expression]("slotPrecedence", 0, 0) == ue.Right
 //@   ensures [syntax] traceSeq(evLC(ue.Token.LeadingComments), evMap(ue.Token.Start), evStr(ue.Operator), evOpt(parensLeft(PrecedenceUnary, callResult[int]("slotPrecedence", 0)), evRune('(')), evNode(ue.Right), evOpt(parensLeft(PrecedenceUnary, callResult[int]("slotPrecedence", 0)), evRune(')')))
 
 //@ func (pe *PostfixExpression) WriteTo(cw)
-//@   props C01 C03 C06 C08 C15 C14 C11
+//@   props C01 C03 C06 C08 C15 C14 C11 C07
 //@   use cwFrame writeTo
 //@   assumes [wf] !isNil(pe.Left)
 //@   ensures [parens.subject@C03] ncalls("slotPrecedence") == 1 && callArg[Expression]("slotPrecedence", 0, 0) == pe.Left
 //@   ensures [syntax] traceSeq(evLC(pe.Token.LeadingComments), evOpt(parensLeft(PrecedencePostfix, callResult[int]("slotPrecedence", 0)), evRune('(')), evNode(pe.Left), evOpt(parensLeft(PrecedencePostfix, callResult[int]("slotPrecedence", 0)), evRune(')')), evMap(pe.Token.Start), evStr(pe.Operator))
 
 //@ func (ge *GroupedExpression) WriteTo(cw)
-//@   props C01 C03 C06 C08 C15 C14 C11
+//@   props C01 C03 C06 C08 C15 C14 C11 C07
 //@   use cwFrame writeTo
 //@   assumes [wf] !isNil(ge.Expression)
 //@   ensures [syntax] traceSeq(evLC(ge.Token.LeadingComments), evMap(ge.Token.Start), evRune('('), evNode(ge.Expression), evLC(ge.RParen.LeadingComments), evRune(')'))
 
 //@ func (ce *CallExpression) WriteTo(cw)
-//@   props C01 C03 C06 C08 C15 C14 C11
+//@   props C01 C03 C06 C08 C15 C14 C11 C07
 //@   use cwFrame writeTo
 //@   assumes [wf] !isNil(ce.Function) && forall(0, len(ce.Arguments), func(k int) bool { return !isNil(ce.Arguments[k]) })
 //@   loop 1 invariant [frame] cwInv(cw) && J(cw) && NoFusion(cw) && implies(cw.PrettyPrint, cw.IndentLevel == old(cw.IndentLevel)+1) && implies(!cw.PrettyPrint, cw.IndentLevel == old(cw.IndentLevel))
@@ -626,28 +626,28 @@ func slotPrecedence(e Expression) int     { return 0 }
 //@   ensures [syntax] traceSeq(evRune(')'))
 
 //@ func (me *MemberExpression) WriteTo(cw)
-//@   props C01 C03 C06 C08 C15 C14 C11
+//@   props C01 C03 C06 C08 C15 C14 C11 C07
 //@   use cwFrame writeTo
 //@   assumes [wf] !isNil(me.Object) && !isNil(me.Property)
 //@   ensures [parens.subject@C03] ncalls("slotPrecedence") == 1 && callArg[Expression]("slotPrecedence", 0, 0) == me.Object
 //@   ensures [syntax] traceSeq(evOpt(parensLeft(PrecedenceCall, callResult[int]("slotPrecedence", 0)), evRune('(')), evNode(me.Object), evOpt(parensLeft(PrecedenceCall, callResult[int]("slotPrecedence", 0)), evRune(')')), evLC(me.Token.LeadingComments), evMap(me.Token.Start), evOpt(me.Computed, evRune('[')), evOpt(!me.Computed, evRune('.')), evNode(me.Property), evOpt(me.Computed, evRune(']')))
 
 //@ func (ae *AssignmentExpression) WriteTo(cw)
-//@   props C01 C03 C06 C08 C15 C14 C11
+//@   props C01 C03 C06 C08 C15 C14 C11 C07
 //@   use cwFrame writeTo
 //@   assumes [wf] !isNil(ae.Left) && !isNil(ae.Value)
 //@   ensures [parens.subject@C03] ncalls("slotPrecedence") == 1 && callArg[Expression]("slotPrecedence", 0, 0) == ae.Left
 //@   ensures [syntax] traceSeq(evOpt(parensLeft(PrecedenceCall, callResult[int]("slotPrecedence", 0)), evRune('(')), evNode(ae.Left), evOpt(parensLeft(PrecedenceCall, callResult[int]("slotPrecedence", 0)), evRune(')')), evLC(ae.Token.LeadingComments), evMap(ae.Token.Start), evRune('='), evNode(ae.Value))
 
 //@ func (cae *CompoundAssignmentExpression) WriteTo(cw)
-//@   props C01 C03 C06 C08 C15 C14 C11
+//@   props C01 C03 C06 C08 C15 C14 C11 C07
 //@   use cwFrame writeTo
 //@   assumes [wf] !isNil(cae.Left) && !isNil(cae.Value)
 //@   ensures [parens.subject@C03] ncalls("slotPrecedence") == 1 && callArg[Expression]("slotPrecedence", 0, 0) == cae.Left
 //@   ensures [syntax] traceSeq(evOpt(parensLeft(PrecedenceCall, callResult[int]("slotPrecedence", 0)), evRune('(')), evNode(cae.Left), evOpt(parensLeft(PrecedenceCall, callResult[int]("slotPrecedence", 0)), evRune(')')), evLC(cae.Token.LeadingComments), evMap(cae.Token.Start), evStr(cae.Operator), evRune('='), evNode(cae.Value))
 
 //@ func (fe *FunctionExpression) WriteTo(cw)
-//@   props C01 C03 C06 C08 C15 C14 C11
+//@   props C01 C03 C06 C08 C15 C14 C11 C07
 //@   use cwFrame writeTo
 //@   assumes [wf] fe.Body != nil && forall(0, len(fe.Parameters), func(k int) bool { return fe.Parameters[k] != nil })
 //@   loop 1 invariant [frame] cwInv(cw) && J(cw) && NoFusion(cw) && cw.IndentLevel == atEntry(cw.IndentLevel)
@@ -656,7 +656,7 @@ func slotPrecedence(e Expression) int     { return 0 }
 //@   ensures [syntax] traceSeq(evRune(')'), evChild(fe.Body))
 
 //@ func (al *ArrayLiteral) WriteTo(cw)
-//@   props C01 C03 C06 C08 C15 C14 C11
+//@   props C01 C03 C06 C08 C15 C14 C11 C07
 //@   use cwFrame writeTo
 //@   assumes [wf] forall(0, len(al.Elements), func(k int) bool { return !isNil(al.Elements[k]) })
 //@   loop 1 invariant [frame] cwInv(cw) && J(cw) && NoFusion(cw) && implies(cw.PrettyPrint, cw.IndentLevel == old(cw.IndentLevel)+1) && implies(!cw.PrettyPrint, cw.IndentLevel == old(cw.IndentLevel))
@@ -665,7 +665,7 @@ func slotPrecedence(e Expression) int     { return 0 }
 //@   ensures [syntax] traceSeq(evLC(al.RBracket.LeadingComments), evRune(']'))
 
 //@ func (ol *ObjectLiteral) WriteTo(cw)
-//@   props C01 C03 C06 C08 C15 C14 C11
+//@   props C01 C03 C06 C08 C15 C14 C11 C07
 //@   use cwFrame writeTo
 //@   assumes [wf] forall(0, len(ol.Properties), func(k int) bool { return !isNil(ol.Properties[k].Key) && !isNil(ol.Properties[k].Value) })
 //@   loop 1 invariant [frame] cwInv(cw) && J(cw) && NoFusion(cw) && implies(cw.PrettyPrint, cw.IndentLevel == old(cw.IndentLevel)+1) && implies(!cw.PrettyPrint, cw.IndentLevel == old(cw.IndentLevel))
